@@ -64,6 +64,10 @@ def obligations(tier):
     for pat in (L2_QUICK if tier == "quick" else L2_QUICK + L2_MORE):
         obs += _l2(pat, t)
     obs.append(Ob("L2.witness_glued_unpadded[YYYYMM]", "c14.py", "render_monotone2", {"pattern": "YYYYMM"}, expect="refute", timeout=t))
+    # L4b: reading a full-date version back gives that date (a version whose date reads back earlier would move backwards on the
+    # next bump): C02's calendar half for the day-of-year and month/day patterns
+    from vp.props import c02 as _c02
+    obs += [o for o in _c02.obligations("quick") if o.name.startswith("L3.derive_fields")]
     # L4: bump level — calendar never moves backwards (C05 calendar stage of incr)
     obs += [o for o in _c05.obligations(tier) if o.name.startswith("L2a.")]
     return obs
